@@ -20,6 +20,12 @@
 // (the engine broadcasts it to every shard) and scripted letters "removal attempted while shard s is
 // read-only, then s back to read-write", so retried removals of multi-copy objects are reachable at
 // the quick depth.
+//
+// A second BFS from the same root covers the engine's own redundancy maintenance (the policer's
+// ListWithCursor -> DeleteRedundantCopies, followed by GC remover passes): it is not a removal, so
+// every object must stay stored and readable afterwards, also when the HRW-best shard for the object
+// is not among its holders (preferred shard read-only at put time, evacuation round trip, shard
+// attached later).
 package main
 
 import (
@@ -31,6 +37,7 @@ import (
 	"strings"
 	"sync"
 
+	"github.com/nspcc-dev/neofs-node/pkg/local_object_storage/blobstor/common"
 	"github.com/nspcc-dev/neofs-node/pkg/local_object_storage/engine"
 	"github.com/nspcc-dev/neofs-node/pkg/local_object_storage/shard/mode"
 	"github.com/nspcc-dev/neofs-node/verif/lib/ev"
@@ -62,7 +69,12 @@ const (
 	opToggleFailReads
 	opFailNextPut
 	opAddShard
-	opDeleteWhile // scripted: SetMode(s, m); Delete(o); SetMode(s, RW)  (a removal attempted while shard s cannot record it, then s is writable again)
+	opPutWhileRO    // scripted: SetMode(s, RO); Put(o); SetMode(s, RW)  (the preferred shard cannot take the object, it is restored afterwards)
+	opEvacRoundTrip // scripted: SetMode(s, RO); Evacuate(s); SetMode(s, RW)  (evacuation copies, never removes: the shard keeps its copies when it comes back)
+	opMaintain      // the policer's local redundancy maintenance: ListWithCursor -> DeleteRedundantCopies(addr, ShardIDs) for every regular object listed on >= 2 shards; then one GC remover pass on every shard
+	opDropRedundant // the same without the GC passes
+	opGCPass        // one GC remover pass on every shard
+	opDeleteWhile   // scripted: SetMode(s, m); Delete(o); SetMode(s, RW)  (a removal attempted while shard s cannot record it, then s is writable again)
 )
 
 type op struct {
@@ -76,7 +88,8 @@ type op struct {
 
 type universe struct {
 	objs []uobj
-	ops  []op
+	ops  []op // main alphabet
+	ops2 []op // alphabet of the redundancy-maintenance search (second BFS from the same root)
 	errT uint32
 }
 
@@ -155,15 +168,43 @@ func buildUniverse(thorough bool) *universe {
 		add(op{kind: opFailNextPut, s: s, name: fmt.Sprintf("FailNextPut(%d)", s)})
 	}
 	add(op{kind: opAddShard, name: "AddShard"})
+
+	// Second search: the engine's own redundancy maintenance. Copies of a regular object on several
+	// shards arise from real engine code only: a put while the preferred shard is read-only, an
+	// evacuation whose source comes back (Evacuate copies and keeps the source), a shard attached later.
+	add2 := func(o op) { u.ops2 = append(u.ops2, o) }
+	add2(op{kind: opPut, o: 0, name: "Put(x)"})
+	add2(op{kind: opPutWhileRO, o: 0, s: 0, name: "PutWhileShardRO(x,0)"})
+	add2(op{kind: opEvacRoundTrip, s: 0, name: "EvacuateRoundTrip(0)"})
+	add2(op{kind: opEvacRoundTrip, s: 1, name: "EvacuateRoundTrip(1)"})
+	add2(op{kind: opAddShard, name: "AddShard"})
+	add2(op{kind: opMaintain, order: []int{0, 1, 2}, name: "RedundancyMaintenance/list-0-first"})
+	add2(op{kind: opDelete, o: 0, name: "Delete(x)"})
+	if thorough {
+		add2(op{kind: opMaintain, order: []int{2, 1, 0}, name: "RedundancyMaintenance/list-2-first"})
+		add2(op{kind: opDropRedundant, order: []int{0, 1, 2}, name: "DropRedundantCopies"})
+		add2(op{kind: opGCPass, name: "GCPass"})
+		add2(op{kind: opPut, o: 1, name: "Put(y)"})
+		add2(op{kind: opPutWhileRO, o: 0, s: 2, name: "PutWhileShardRO(x,2)"})
+		add2(op{kind: opEvacRoundTrip, s: 2, name: "EvacuateRoundTrip(2)"})
+		add2(op{kind: opSetMode, s: 0, m: mode.ReadOnly, name: "SetMode(0,RO)"})
+		add2(op{kind: opSetMode, s: 0, m: mode.ReadWrite, name: "SetMode(0,RW)"})
+		add2(op{kind: opToggleFailReads, s: 1, name: "ToggleFailReads(1)"})
+	}
 	return u
 }
 
 type sys struct {
-	u       *universe
-	w       *ew.World
-	removed []string // per object: "" | how it was removed
-	unsure  []bool   // per object: a rejected operation may have been half-applied (until a later removal is accepted)
-	skipped []bool   // per object: the accepted removal left an unmarked copy on a shard that was fully able to record it
+	u           *universe
+	w           *ew.World
+	removed     []string // per object: "" | how it was removed
+	unsure      []bool   // per object: a rejected operation may have been half-applied (until a later removal is accepted)
+	ops         []op
+	put         []bool      // per object: a Put was accepted and stored it
+	lostRep     []bool      // per object: its loss has been reported (reported once per history)
+	pendingFail [][2]string // failures found by a letter itself, reported by the next observe
+	last        string      // kind of the last letter (fingerprint component of the loss rule)
+	skipped     []bool      // per object: the accepted removal left an unmarked copy on a shard that was fully able to record it
 	// last known metabase verdict per shard/object (the metabase of a degraded shard is closed but
 	// its content stays part of the state)
 	shadow map[string]string
@@ -179,12 +220,12 @@ var (
 	classes = map[string][]string{}
 )
 
-func newSys(u *universe) *sys {
+func newSys(u *universe, ops []op) *sys {
 	w, err := ew.New(ew.Config{NumShards: 2, ErrorThreshold: u.errT})
 	if err != nil {
 		panic(err)
 	}
-	s := &sys{u: u, w: w, removed: make([]string, len(u.objs)), unsure: make([]bool, len(u.objs)), skipped: make([]bool, len(u.objs)), shadow: map[string]string{}}
+	s := &sys{u: u, w: w, removed: make([]string, len(u.objs)), unsure: make([]bool, len(u.objs)), skipped: make([]bool, len(u.objs)), put: make([]bool, len(u.objs)), lostRep: make([]bool, len(u.objs)), ops: ops, shadow: map[string]string{}}
 	s.observe()
 	return s
 }
@@ -227,21 +268,44 @@ func errClass(err error) string {
 }
 
 func (s *sys) Apply(i int) (string, bool) {
-	o := s.u.ops[i]
+	o := s.ops[i]
 	w := s.w
+	s.last = ""
 	ctx := context.Background()
 	var res string
 	s.hist = append(s.hist, o.name)
 	switch o.kind {
 	case opPut:
-		uo := s.u.objs[o.o]
-		before := s.holders(uo.obj)
-		err := w.Eng.Put(ctx, uo.obj, nil)
-		res = errClass(err)
-		if err == nil && len(before) == 0 && s.removed[o.o] != "" && s.removed[o.o] != "tombstone" && len(s.holders(uo.obj)) > 0 {
-			s.removed[o.o] = "" // stored anew after its copies had been removed physically
-			s.skipped[o.o] = false
+		res = s.putObj(o.o)
+	case opPutWhileRO:
+		if o.s >= len(w.Shards) || w.Mode(o.s) != mode.ReadWrite {
+			return "", false
 		}
+		if err := w.SetMode(o.s, mode.ReadOnly); err != nil {
+			panic(err)
+		}
+		res = s.putObj(o.o)
+		if err := w.SetMode(o.s, mode.ReadWrite); err != nil {
+			panic(err)
+		}
+	case opEvacRoundTrip:
+		if o.s >= len(w.Shards) || len(w.Shards) < 2 || w.Mode(o.s) != mode.ReadWrite {
+			return "", false
+		}
+		if err := w.SetMode(o.s, mode.ReadOnly); err != nil {
+			panic(err)
+		}
+		n, err := w.Eng.Evacuate(ctx, []common.ID{w.Shards[o.s].ID}, false, nil)
+		res = fmt.Sprintf("%s/%d", errClass(err), n)
+		if err := w.SetMode(o.s, mode.ReadWrite); err != nil {
+			panic(err)
+		}
+	case opMaintain, opDropRedundant, opGCPass:
+		s.last = "redundancy-maintenance"
+		if o.kind == opGCPass {
+			s.last = "gc-pass"
+		}
+		res = s.maintain(o)
 	case opPutTomb:
 		uo := s.u.objs[o.o]
 		var ord []int
@@ -314,6 +378,99 @@ func (s *sys) Apply(i int) (string, bool) {
 	return res + "|" + strings.Join(s.obs, ","), true
 }
 
+func (s *sys) putObj(oi int) string {
+	uo := s.u.objs[oi]
+	before := s.holders(uo.obj)
+	err := s.w.Eng.Put(context.Background(), uo.obj, nil)
+	after := s.holders(uo.obj)
+	if err == nil && len(before) == 0 && s.removed[oi] != "" && s.removed[oi] != "tombstone" && len(after) > 0 {
+		s.removed[oi] = "" // stored anew after its copies had been removed physically
+		s.skipped[oi] = false
+	}
+	if err == nil && len(after) > 0 {
+		s.put[oi] = true
+		if len(before) == 0 {
+			s.lostRep[oi] = false
+		}
+	}
+	return errClass(err)
+}
+
+// maintain drives the engine's redundancy maintenance exactly as the policer does: the shard lists
+// come from the engine's own ListWithCursor, DeleteRedundantCopies is called for every regular object
+// listed on two or more shards (system objects are skipped by the policer); then (unless disabled) the
+// GC remover runs once on every shard. Nothing of this is a removal: every object must stay readable.
+func (s *sys) maintain(o op) string {
+	w := s.w
+	ctx := context.Background()
+	var res []string
+	type job struct {
+		uo      uobj
+		holders []int
+		able    bool
+	}
+	var jobs []job
+	if o.kind != opGCPass {
+		var ord []int
+		for _, x := range o.order {
+			if x < len(w.Shards) {
+				ord = append(ord, x)
+			}
+		}
+		w.SetOrder(ord)
+		items, _, err := w.Eng.ListWithCursor(ctx, 100, nil)
+		w.SetOrder(nil)
+		if err != nil && !errors.Is(err, engine.ErrEndOfListing) {
+			res = append(res, "list:"+errClass(err))
+		}
+		for _, it := range items {
+			if len(it.ShardIDs) < 2 || it.Type != object.TypeRegular {
+				continue
+			}
+			err := w.Eng.DeleteRedundantCopies(ctx, it.Address, it.ShardIDs)
+			res = append(res, fmt.Sprintf("%d:%s", len(it.ShardIDs), errClass(err)))
+			if err != nil {
+				continue
+			}
+			for _, uo := range s.u.objs {
+				if addrOf(uo.obj) != it.Address {
+					continue
+				}
+				j := job{uo: uo, able: true}
+				for _, id := range it.ShardIDs {
+					h := w.Index(id)
+					j.holders = append(j.holders, h)
+					st := w.Shards[h].Stor
+					j.able = j.able && w.Mode(h) == mode.ReadWrite && !st.ReadsFailing()
+				}
+				jobs = append(jobs, j)
+			}
+		}
+	}
+	if o.kind != opDropRedundant {
+		for i := range w.Shards {
+			w.Shards[i].Sh.VerifEWGCPass()
+		}
+		// effectiveness of an accepted maintenance over healthy read-write holders: one copy is kept
+		for _, j := range jobs {
+			if !j.able {
+				continue
+			}
+			left := 0
+			for _, h := range j.holders {
+				if ok, _ := w.Shards[h].Stor.Inner().Exists(addrOf(j.uo.obj)); ok {
+					left++
+				}
+			}
+			if left > 1 {
+				s.pendingFail = append(s.pendingFail, [2]string{"redundant-copies-not-dropped:accepted-maintenance-over-healthy-shards",
+					fmt.Sprintf("object %s: DeleteRedundantCopies(%v) returned nil, GC ran on every shard, %d copies are left on the listed shards", j.uo.name, j.holders, left)})
+			}
+		}
+	}
+	return strings.Join(res, ",")
+}
+
 // remove performs an engine Delete (default mark) or Drop and updates the removal history.
 func (s *sys) remove(oi int, drop bool) string {
 	uo := s.u.objs[oi]
@@ -374,6 +531,14 @@ func (s *sys) healthyHolderUnmarked(o *object.Object, able []int) bool {
 	return false
 }
 
+func (s *sys) allDesc() string {
+	var d []string
+	for i := range s.w.Shards {
+		d = append(d, shardDesc(s.w, i))
+	}
+	return strings.Join(d, ",")
+}
+
 func shardDesc(w *ew.World, i int) string {
 	d := map[mode.Mode]string{mode.ReadWrite: "W", mode.ReadOnly: "R", mode.DegradedReadOnly: "D", mode.Degraded: "d"}[w.Mode(i)]
 	if w.Shards[i].Stor.ReadsFailing() {
@@ -402,8 +567,23 @@ func (s *sys) observe() {
 			}
 		}
 	}
+	for _, pf := range s.pendingFail {
+		s.fail(pf[0], pf[1])
+	}
+	s.pendingFail = nil
 	for oi, uo := range s.u.objs {
 		addr := addrOf(uo.obj)
+		// an accepted Put that was never followed by a removal attempt: some shard must still hold the
+		// object, whatever maintenance the engine ran in between
+		if s.put[oi] && s.removed[oi] == "" && !s.unsure[oi] && !s.lostRep[oi] && len(s.holders(uo.obj)) == 0 {
+			s.lostRep[oi] = true
+			after := s.last
+			if after == "" {
+				after = "other-letter"
+			}
+			s.fail("stored-object-lost:no-shard-holds-a-never-removed-object:after="+after,
+				fmt.Sprintf("object %s was stored by an accepted Put, no Delete/Drop/tombstone was ever attempted, yet no shard directory contains it any more (shards %s)", uo.name, s.allDesc()))
+		}
 		for _, rd := range []string{"get", "head", "exists"} {
 			// ground truth at the moment of the read (earlier reads may have degraded a shard)
 			hs := s.holders(uo.obj)
@@ -532,29 +712,48 @@ func (s *sys) Key() string {
 			}
 		}
 	}
-	fmt.Fprintf(&sb, "|%v|%v|%v", s.removed, s.unsure, s.skipped)
+	fmt.Fprintf(&sb, "|%v|%v|%v|%v|%v", s.removed, s.unsure, s.skipped, s.put, s.lostRep)
 	return sb.String()
 }
 
 func main() {
-	depth := flag.Int("depth", 0, "override BFS depth")
+	depth := flag.Int("depth", 0, "override BFS depth of the main search")
+	depth2 := flag.Int("depth2", 0, "override BFS depth of the redundancy-maintenance search")
 	r := ev.Start("C20", ev.ModelChecking)
 	if !ew.Instrumented {
 		r.Fatal("built without the verif overlay")
 	}
 	u := buildUniverse(r.Thorough())
-	cfg := seqx.Config{NumOps: len(u.ops), OpName: func(i int) string { return u.ops[i].name },
-		New: func() seqx.Sys { return newSys(u) }, MaxDepth: 3, CheckInit: true}
+	mk := func(ops []op, depth int) seqx.Config {
+		return seqx.Config{NumOps: len(ops), OpName: func(i int) string { return ops[i].name },
+			New: func() seqx.Sys { return newSys(u, ops) }, MaxDepth: depth, CheckInit: true}
+	}
+	d1, d2 := 3, 4
 	if r.Thorough() {
-		cfg.MaxDepth = 4
+		d1, d2 = 4, 5
 	}
 	if *depth > 0 {
-		cfg.MaxDepth = *depth
+		d1 = *depth
 	}
+	if *depth2 > 0 {
+		d2 = *depth2
+	}
+	cfg, cfg2 := mk(u.ops, d1), mk(u.ops2, d2)
 	if r.Replay != "" {
+		// both searches start from the same root; a history is replayed over the union of the alphabets
+		union := append([]op(nil), u.ops...)
+		for _, o := range u.ops2 {
+			dup := false
+			for _, p := range u.ops {
+				dup = dup || p.name == o.name
+			}
+			if !dup {
+				union = append(union, o)
+			}
+		}
 		var rp struct{ Ops []string }
 		r.LoadReplay(&rp)
-		fp, what, err := seqx.Replay(cfg, rp.Ops)
+		fp, what, err := seqx.Replay(mk(union, 0), rp.Ops)
 		if err != nil {
 			r.Fatal("%v", err)
 		}
@@ -564,14 +763,25 @@ func main() {
 		r.Finish()
 	}
 	res := seqx.Run(r, cfg)
+	res2 := seqx.Run(r, cfg2)
 	if vmaps.Calls() == 0 {
 		r.Fatal("vmaps shim was never called")
 	}
-	var names []string
+	var names, names2 []string
 	for _, o := range u.ops {
 		names = append(names, o.name)
 	}
+	for _, o := range u.ops2 {
+		names2 = append(names2, o.name)
+	}
 	r.Set("alphabet", names)
+	r.Set("alphabet_redundancy_search", names2)
+	r.Set("depth_completed", res.DepthCompleted)
+	r.Set("depth_completed_redundancy_search", res2.DepthCompleted)
+	r.Set("states_main_search", res.States)
+	r.Set("states_redundancy_search", res2.States)
+	r.Set("transitions_redundancy_search", res2.Transitions)
+	r.Exhaustive(res.Exhaustive && res2.Exhaustive)
 	var cls []string
 	for fp, h := range classes {
 		cls = append(cls, fp+"  <=  "+strings.Join(h, " ; "))
@@ -581,10 +791,11 @@ func main() {
 	for _, c := range cls {
 		fmt.Println("  class+history:", c)
 	}
-	r.Set("outcome_classes", res.ObsClasses)
-	r.Rule(fmt.Sprintf("BFS over %d operations on a real 2-shard engine (error threshold %d, third shard attachable), depth bound %d (completed %d), states deduplicated by (per shard: mode, fault plan, error counter, per object file presence and metabase verdict; model: removed/unsure/skipped flags); the alphabet contains scripted letters 'Delete while shard s is read-only, then s read-write again' so that retried removals over a LINK object stored on every shard are reachable within the bound; after every transition Get/Head/exists of every object are judged against the ground truth of the shard directories; non-trivial = newly reached state", len(u.ops), u.errT, cfg.MaxDepth, res.DepthCompleted))
+	r.Set("outcome_classes", res.ObsClasses+res2.ObsClasses)
+	r.Rule(fmt.Sprintf("BFS over %d operations on a real 2-shard engine (error threshold %d, third shard attachable), depth bound %d (completed %d), states deduplicated by (per shard: mode, fault plan, error counter, per object file presence and metabase verdict; model: removed/unsure/skipped flags); the alphabet contains scripted letters 'Delete while shard s is read-only, then s read-write again' so that retried removals over a LINK object stored on every shard are reachable within the bound; after every transition Get/Head/exists of every object are judged against the ground truth of the shard directories, and an object stored by an accepted Put with no removal attempt must still be held by some shard; a second BFS from the same root (depth bound %d, completed %d, %d letters) explores the engine's own redundancy maintenance driven as the policer drives it (ListWithCursor -> DeleteRedundantCopies(addr, ShardIDs) for regular objects on >= 2 shards, then a GC remover pass on every shard) over copies produced by real engine code (put while the preferred shard is read-only, evacuation round trip, shard attached later); non-trivial = newly reached state", len(u.ops), u.errT, cfg.MaxDepth, res.DepthCompleted, cfg2.MaxDepth, res2.DepthCompleted, len(u.ops2)))
 	r.Assume(
-		"single-threaded histories; background GC never runs (remover interval 24h), epochs do not advance, no write-cache",
+		"single-threaded histories; the background GC timer never fires (remover interval 24h): GC remover passes are explicit letters of the redundancy-maintenance search (run synchronously through an injected accessor); epochs do not advance, no write-cache",
+		"redundancy maintenance is not a removal: fingerprint 'stored-object-lost:no-shard-holds-a-never-removed-object:after=<letter kind>' = an object put successfully and never subjected to Delete/Drop/tombstone is in no shard directory; 'redundant-copies-not-dropped:...' = an accepted DeleteRedundantCopies over healthy read-write holders plus GC left more than one copy",
 		"read faults are injected at the blob storage (FSTree wrapper), not at the metabase; write faults fail a blob put before it touches the disk",
 		"an object touched by an engine operation that returned an error is not judged until a later removal of it is accepted (half-applied rejected operations are outside the property; an accepted removal must hold whatever was left behind)",
 		"fingerprint mechanism 'accepted-removal-skipped-a-healthy-writable-holder-shard' = when the removal was accepted, a shard holding a copy was read-write with no armed fault and still was not told; the older mechanisms cover holder shards that could not record the removal",
